@@ -127,13 +127,15 @@ func (s *Sniffer) readStreamOnceWithReadDeadline() error {
 		return nil
 	}
 	close(s.dataReady)
-	s.dataError = err
 
 	var netErr net.Error
 	if errors.As(err, &netErr) && netErr.Timeout() {
+		// The sniff deadline expiring is not a connection error: it must not be
+		// replayed to the relay by Read (the connection is still healthy).
 		// Keep behavior consistent with context timeout path in the legacy async read.
 		return fmt.Errorf("%w: %w", ErrNotApplicable, context.DeadlineExceeded)
 	}
+	s.dataError = err
 	return err
 }
 
